@@ -147,6 +147,53 @@ Proof.
     destruct Hw as [vs [_ Hw]]. exact (zero_fields_like 15 15 _ vs (le_n _) Hw).
 Qed.
 
+(* the <osm> document with its children in ANY order that keeps the order within each kind, and
+   with any elements added that are none of its children *)
+Lemma decode_osm_any_order_k : forall k d v,
+  (k <= FUEL)%nat ->
+  lookup_type sch "OSM" = Some d -> osm_top_static d = true -> osm_static sch k d = true ->
+  wf sch (S k) (TNamed "OSM") v = true ->
+  exists al kids,
+    marshal sch (S k) (TNamed "OSM") v None None = Ok [Elem "osm" al kids no_text]
+    /\ forall bs kids' t,
+         fields_all (zero_like sch k) (zero_like sch k) (struct_fields d) bs = true ->
+         same_per_field sch (struct_fields d) kids kids' ->
+         unmarshal sch FUEL (S k) (TNamed "OSM") (VStruct bs) (Elem "osm" al kids' t) = Ok v.
+Proof.
+  intros k d v Hk0 Hl Hts Hst Hwf.
+  destruct (osm_top_inv d Hl Hts) as (Hk & Hname & Hmh & Huh).
+  destruct (wf_struct_inv _ _ d v Hwf Hk) as [vs [-> [Hwfs _]]].
+  destruct (osm_block_any sch k d vs Hk0 Hst Hwfs) as [al [kids [Hal [Hkids Hdec]]]].
+  exists al, kids. split.
+  - rewrite marshal_S.
+    rewrite (ms_hook sch _ (TNamed "OSM") d (VStruct vs) None None); [| rewrite Hk; reflexivity | reflexivity | exact Hmh].
+    unfold hook_marshal. rewrite Hname. cbn [String.eqb Ascii.eqb Bool.eqb]. unfold osm_marshal.
+    rewrite Hal. cbn [rbind]. rewrite (Hkids k (le_n _)). reflexivity.
+  - intros bs kids' t Hz Hsame. rewrite unmarshal_S. rewrite (us_struct sch _ _ _ d _ _ Hk Huh).
+    apply Hdec; [apply le_n | exact Hz | exact Hsame].
+Qed.
+
+Theorem decode_osm_any_order : forall d v,
+  lookup_type sch "OSM" = Some d -> osm_top_static d = true -> osm_static sch 15 d = true ->
+  wf sch FUEL (TNamed "OSM") v = true ->
+  exists al kids,
+    encode1 sch "OSM" v = Ok (Elem "osm" al kids no_text)
+    /\ forall kids' t, same_per_field sch (struct_fields d) kids kids' ->
+                       decode sch "OSM" (Elem "osm" al kids' t) = Ok v.
+Proof.
+  intros d v Hl Hts Hst Hwf.
+  assert (H15 : (15 <= FUEL)%nat) by (unfold FUEL; repeat constructor).
+  destruct (decode_osm_any_order_k 15 d v H15 Hl Hts Hst Hwf) as [al [kids [He Hd]]].
+  exists al, kids. split.
+  - unfold encode1, encode. change FUEL with (S 15). rewrite He. reflexivity.
+  - intros kids' t Hsame. unfold decode. destruct (osm_top_inv d Hl Hts) as (Hk & _).
+    change (zero sch FUEL (TNamed "OSM")) with (zero sch (S 15) (TNamed "OSM")).
+    rewrite (zero_struct 15 _ d Hk). change (unmarshal sch FUEL FUEL) with (unmarshal sch FUEL (S 15)).
+    apply Hd; [|exact Hsame].
+    destruct (wf_struct_inv 15 _ d v Hwf Hk) as [vs [_ [Hw _]]].
+    exact (zero_fields_like 15 15 _ vs (le_n _) Hw).
+Qed.
+
 (* ---------- Change (osmChange) ---------- *)
 
 Definition blk_ok (f : field) (go nm : string) : bool :=
